@@ -178,6 +178,7 @@ def parse_obj(path, want_raw=False):
             if last is not None:
                 insns[last]['reloc'] = m.group(3)
                 insns[last]['reloc_ty'] = m.group(2)
+                insns[last]['reloc_at'] = int(m.group(1), 16)
                 if m.group(4):
                     insns[last]['reloc_add'] = int(m.group(4), 16)
             continue
@@ -220,6 +221,7 @@ def parse_obj(path, want_raw=False):
             if inl:
                 d['reloc'] = inl.group(3)
                 d['reloc_ty'] = inl.group(2)
+                d['reloc_at'] = int(inl.group(1), 16)
                 if inl.group(4):
                     d['reloc_add'] = int(inl.group(4), 16)
             insns[a] = d
